@@ -117,12 +117,44 @@ def run_generic(ctx, pid, mod):
     if seed:
         import random
         random.Random(seed).shuffle(files)
-    for name, path, meta in files:
-        r = run_mutant(pid, mod, name, path, meta, known_keys=known | base)
-        results.append(r)
-        print('  mutant %-40s %s %s' % (r['name'], r['status'], r.get('keys', r.get('why', ''))))
-        if r['status'] == 'fired' and name.startswith('own:'):
-            _remember(name, r.get('all_keys', r['keys']))
+    workers = int(os.environ.get('QV_WORKERS', '8'))
+    if len(files) <= 3 or workers <= 1:
+        for name, path, meta in files:
+            r = run_mutant(pid, mod, name, path, meta, known_keys=known | base)
+            results.append(r)
+            print('  mutant %-40s %s %s' % (r['name'], r['status'], r.get('keys', r.get('why', ''))))
+            if r['status'] == 'fired' and name.startswith('own:'):
+                _remember(name, r.get('all_keys', r['keys']))
+    else:
+        # shards of mutants are evaluated by parallel worker processes, each with a private cache / target dir
+        # (kept under .cache/worker-<k> so that the dependency build is paid once per worker, not per run)
+        k = min(workers, len(files))
+        shards = [files[i::k] for i in range(k)]
+        procs = []
+        tmpd = os.path.join(R.CACHE, 'shards-%s-%d' % (pid, os.getpid()))
+        os.makedirs(tmpd, exist_ok=True)
+        for i, sh in enumerate(shards):
+            nf = os.path.join(tmpd, 'names-%d' % i)
+            open(nf, 'w').write('\n'.join(n for n, _, _ in sh))
+            env = dict(os.environ, QV_CACHE=os.path.join(R.CACHE, 'worker-%d' % i))
+            procs.append((i, subprocess.Popen([sys.executable, os.path.join(VERIF, 'tools', 'mutant.py'), pid, '--names-file', nf, '--json', os.path.join(tmpd, 'out-%d.json' % i)],
+                                              env=env, stdout=subprocess.PIPE, stderr=subprocess.STDOUT, text=True)))
+        for i, pr in procs:
+            log, _ = pr.communicate()
+            of = os.path.join(tmpd, 'out-%d.json' % i)
+            if pr.returncode != 0 or not os.path.exists(of):
+                for n, _, _ in shards[i]:
+                    results.append({'name': n, 'status': 'error', 'why': 'worker %d failed: %s' % (i, log[-300:])})
+                continue
+            results.extend(json.load(open(of)))
+        shutil.rmtree(tmpd, ignore_errors=True)
+        # known/baseline keys of this run are not failures of the mutant
+        for r in results:
+            if 'keys' in r:
+                ks = [x for x in r.get('all_keys', r['keys']) if x not in base]
+                if r['status'] == 'fired' and not ks:
+                    r['status'] = 'missed'
+            print('  mutant %-40s %s %s' % (r['name'], r['status'], r.get('keys', r.get('why', ''))))
     broken = [r['name'] for r in results if r['status'] in ('missed', 'error')]
     extra = {
         'mutants': {
